@@ -1,6 +1,8 @@
 """C01 - totality of the hand-written block parsers, by evaluation with the real parse loop."""
 from __future__ import annotations
 
+from sa.core import pool_repo as core_pool_repo, pmap as core_pmap  # noqa: E402
+
 import itertools
 
 from sa.core import AnalysisError
@@ -23,7 +25,7 @@ def _o_job(args):
     from .c16b import seq_model
     from sa.core import Repo
 
-    repo = Repo(root)
+    repo = core_pool_repo(root)
     m = repo.mod(UNKNOWN)
     fn = m.get('CSSUnknownRule._setCssText')
     log = Record(error=lambda *a, **k: None, warn=lambda *a, **k: None, info=lambda *a, **k: None, debug=lambda *a, **k: None)
@@ -76,8 +78,7 @@ def r01o(chk, rid='R01.o', thorough=False):
     alphabet = ['x', ';', '{', '}', '(', ')', '[', ']', 'rgb(', '"s"', 'url(u)', "'open"]
     maxlen = 4 if thorough else 3
     ctx = mp.get_context('fork')
-    with ctx.Pool(len(alphabet)) as pool:
-        res = pool.map(_o_job, [(chk.repo.root, [a], maxlen) for a in alphabet])
+    res = core_pmap(chk.repo, _o_job, [(chk.repo.root, [a], maxlen) for a in alphabet], len(alphabet))
     cases = sum(r[0] for r in res)
     bad = [x for r in res for x in r[1]]
     acc = [x for r in res for x in r[2]]
